@@ -23124,6 +23124,42 @@ pub mod verif_hooks {
 		})
 	}
 
+	/// `claim_deadline_probe` for a payment hash whose earlier claim is still in flight (an entry in
+	/// `pending_claiming_payments`, as between `claim_funds` and the completion of its monitor updates): a further,
+	/// complete HTLC for that hash must be refused, so the result must be None.
+	pub fn claim_in_flight_probe<
+		M: chain::Watch<SP::EcdsaSigner>,
+		T: BroadcasterInterface,
+		ES: EntropySource,
+		NS: NodeSigner,
+		SP: SignerProvider,
+		F: FeeEstimator,
+		R: Router,
+		MR: MessageRouter,
+		L: Logger,
+	>(
+		cm: &ChannelManager<M, T, ES, NS, SP, F, R, MR, L>, parts: &[(u32, u64)],
+	) -> Option<(u64, Option<u32>)> {
+		let secret = PaymentSecret([8; 32]);
+		cm.claimable_payments.lock().unwrap().pending_claiming_payments.insert(
+			PaymentHash([77; 32]),
+			ClaimingPayment {
+				amount_msat: 1,
+				payment_purpose: events::PaymentPurpose::Bolt11InvoicePayment {
+					payment_preimage: None,
+					payment_secret: secret,
+				},
+				receiver_node_id: cm.get_our_node_id(),
+				htlcs: Vec::new(),
+				sender_intended_value: None,
+				onion_fields: RecipientOnionFields::secret_only(secret, 1),
+				payment_id: None,
+				durable_preimage_channel: None,
+			},
+		);
+		claim_deadline_probe(cm, parts)
+	}
+
 	/// Serialises (`write_claimable_htlc`) and reads back (`<(ClaimableHTLC, u64) as Readable>::read`)
 	/// a claimable HTLC with the given integer fields; returns what came back:
 	/// (value, sender_intended_value, total_msat, total_value_received, cltv_expiry,
